@@ -1,5 +1,5 @@
 """C14 - String functions operate on characters (code points) and are mutually consistent."""
-import copy, re
+import copy, os
 from lib import driver as D
 
 MUTANTS = ["byteLength", "substringBytes", "indexOfBytes", "noBoundsCheck", "negLengthIsRest",
@@ -49,6 +49,10 @@ def run(ctx):
     dead_driver(obs)
     if ctx.tier == "thorough":
         corrupt_probe(ctx, obs)
+    if os.environ.get("C14_NO_KNOWN") and D.REPO != "/repo":
+        # trials on a scratch tree that already carries proposed_fixes/C14-*.diff: judge it as it will be judged once the
+        # fix is committed and the known-finding lines are deleted (never honoured for /repo itself)
+        D.load_known = lambda prop: []
     by_id = {o["id"]: o for o in obs}
     keys = [nontrivial_key(o) for o in obs]
     step = max(1, len(obs) // 5)
